@@ -8,6 +8,7 @@ from . import hcm
 from .core import Prop
 
 LEVELS = [-200, -100, 0, 100, 200]
+LEVELS7 = [-300, -200, -100, 0, 100, 200, 300]
 
 
 def two_distinct(s):
@@ -19,7 +20,13 @@ class C04(Prop):
     SOURCES = hcm.SOURCES
     LEAN_MODULES = ["Proofs.C04"]
     PARALLEL = 16
-    THEOREMS = []
+    THEOREMS = [
+        "PylifeVerif.C04.periodicRainflow_insert",
+        "PylifeVerif.C04.periodicRainflow_rotate",
+        "PylifeVerif.C04.prf_rotate",
+        "PylifeVerif.C04.cyclicReversals_insert",
+        "PylifeVerif.C04.cyclicReversals_rotate",
+    ]
     PARTIAL = {}
     RULE = ("case = load sequence (>= 2 distinct values) for one assessment point with an exact stub notch law; quick: all sequences over "
             "5 load levels up to length 5 + seeded random sequences (<= 14 samples, 9 levels / dyadic non-integers) incl. refinements by "
@@ -36,14 +43,18 @@ class C04(Prop):
 
     # ------------------------------------------------------------ generation
     def generate(self, rng, tier):
-        maxlen = 5 if tier == "quick" else 6
+        # three levels per sign are needed for some junction defects (e.g. [500, 200, 400, 100]: a last sample between its
+        # predecessor and zero) - found by a prover agent while the scope still had two levels per sign
+        scopes = [(LEVELS, 5), (LEVELS7, 4)] if tier == "quick" else [(LEVELS, 6), (LEVELS7, 5)]
         self.exhaustive = True
-        self.stats["exhaustive_scope"] = f"all sequences over {LEVELS} of length 2..{maxlen} with >= 2 distinct values"
-        for n in range(2, maxlen + 1):
-            for s in itertools.product(LEVELS, repeat=n):
-                if two_distinct(s):
-                    # the model runs all; the (slow, pandas-heavy) implementation runs a seeded third in the quick tier
-                    yield {"kind": "seq", "law": "linear" if (sum(s) // 100) % 2 == 0 else "sat", "samples": list(s), "ratios": [1]}
+        self.stats["exhaustive_scope"] = "; ".join(f"all sequences over {lv} of length 2..{ml} with >= 2 distinct values" for lv, ml in scopes)
+        seen = set()
+        for lv, maxlen in scopes:
+            for n in range(2, maxlen + 1):
+                for s in itertools.product(lv, repeat=n):
+                    if two_distinct(s) and s not in seen:
+                        seen.add(s)
+                        yield {"kind": "seq", "law": "linear" if (sum(s) // 100) % 2 == 0 else "sat", "samples": list(s), "ratios": [1]}
         nrand = 250 if tier == "quick" else 4000
         for _ in range(nrand):
             n = rng.randint(2, 14)
